@@ -281,7 +281,22 @@ impl SsaRename for il::ControlFlowGraph {
             Ok(())
         }
 
-        dominator_tree_dfs_pre_order_traverse(self, &dominator_tree, entry, versioning)
+        dominator_tree_dfs_pre_order_traverse(self, &dominator_tree, entry, versioning)?;
+
+        // Blocks which are unreachable from the entry are isolated vertices of the
+        // dominator tree. Rename them as well, each in a scope of its own, so that
+        // their definitions also get a version and no scalar is assigned twice.
+        let mut unreachable: Vec<usize> = self
+            .graph()
+            .unreachable_vertices(entry)?
+            .into_iter()
+            .collect();
+        unreachable.sort_unstable();
+        for node in unreachable {
+            dominator_tree_dfs_pre_order_traverse(self, &dominator_tree, node, versioning)?;
+        }
+
+        Ok(())
     }
 }
 
